@@ -3,7 +3,7 @@
 use crate::case::{self, Case};
 use crate::driver::{self, Spec};
 use crate::forms::any_layout;
-use crate::util::{abs_dot, all_finite, dot, fit_or_skip, ref_close, usable};
+use crate::util::{abs_dot, all_finite, dot, fit_or_skip, fit_with_deadline, ref_close, usable};
 use linfa::prelude::*;
 use linfa_elasticnet::{ElasticNet, MultiTaskElasticNet};
 use linfa_linear::{IsotonicRegression, LinearRegression, Link, TweedieRegressor};
@@ -79,7 +79,7 @@ pub fn check_tweedie(c: &Case, obs: &mut Obs) {
     let intercept = c.opt(1, 3) != 0;
     let alpha = [0.0, 0.1, 1.0][c.opt(2, 3) as usize];
     let ds = Dataset::new(case::train_x(c), y);
-    let Some(model) = fit_or_skip(obs, || {
+    let Some(model) = fit_with_deadline(obs, move || {
         TweedieRegressor::params().power(power).link(link).alpha(alpha).fit_intercept(intercept).max_iter(60).fit(&ds)
     }) else {
         return;
